@@ -47,6 +47,7 @@ type event struct {
 
 var reSeq = regexp.MustCompile(`(?i)\bseq\w*[ .]*(?:no\.?|number|num|#)?[ .]*[:=][ \t]*(\d+)`)
 var reCache = map[string]*regexp.Regexp{}
+var reAnnot = regexp.MustCompile(`^(.*?)[ \t]+[(\[][^()\[\]]*[)\]]$`)
 var reMarker = regexp.MustCompile(`vfid-(\d+)-`)
 var separator = strings.Repeat("=", 80)
 
@@ -55,10 +56,12 @@ func entries(ev event, format string) ([]string, error) {
 		if ev.Body == "" {
 			return nil, nil
 		}
-		if !strings.HasSuffix(ev.Body, separator) {
+		parts := strings.Split(ev.Body, separator)
+		// every entry is closed by the separator; text after the last one is an entry only if it looks like
+		// one (it names a message), otherwise it is a footer and no concern of the property
+		if last := parts[len(parts)-1]; reMarker.MatchString(last) || reSeq.MatchString(last) {
 			return nil, fmt.Errorf("text response does not end with the separator")
 		}
-		parts := strings.Split(ev.Body, separator)
 		return parts[:len(parts)-1], nil
 	}
 	var js struct {
@@ -119,8 +122,15 @@ func fieldShown(sec, name, want, kind string) string {
 	if len(ms) == 0 {
 		return fmt.Sprintf("field %q is not shown by name", name)
 	}
+	var cands []string
 	for _, m := range ms {
-		got := m[1]
+		cands = append(cands, m[1])
+		// a rendering may annotate the value ("1600000000 (2020-09-13T12:26:40Z)"): the value is still shown
+		if am := reAnnot.FindStringSubmatch(m[1]); am != nil {
+			cands = append(cands, am[1])
+		}
+	}
+	for _, got := range cands {
 		switch kind {
 		case "octets":
 			for _, rd := range octetRenderings(want[7:]) {
@@ -277,7 +287,7 @@ func main() {
 		}
 		histHash = hx.H64(histHash, "r", ev.URL)
 		if strings.HasPrefix(ev.URL, "/reset") {
-			if ev.Code != 200 {
+			if ev.Code < 200 || ev.Code > 299 {
 				fail(cur, "reset-refused", fmt.Sprintf("POST /reset answered %d", ev.Code), ev)
 			}
 			window = nil
@@ -300,7 +310,7 @@ func main() {
 		if cs := q.Get("count"); cs != "" {
 			n, _ = strconv.Atoi(cs)
 		}
-		if ev.Code != 200 {
+		if ev.Code < 200 || ev.Code > 299 {
 			fail(cur, "valid-query-refused", fmt.Sprintf("%s answered %d", ev.URL, ev.Code), ev)
 			continue
 		}
